@@ -156,6 +156,14 @@ def odd_phase(rng, sim, ops):
             ops.append(f"log.cut idx {sim.nidx * 16}")          # the index is back
             gone = False
     torn = False
+    if not gone and sim.nidx >= 1 and rng.random() < 0.4:
+        # the cached index position is overwritten by another entry (isPositionInTimeFor must notice: it re-reads the second)
+        last = sim.latest
+        ops.append(f"log.find s1 {last * 1000} {10 ** 14} *")
+        ops.append(f"log.cut idx {(sim.nidx - 1) * 16}")
+        ops.append("log.raw idx " + be8(last + rng.choice([1, 2, 5])) + be8(rng.choice([0, total // 2, total])))
+        ops.append(f"log.find s1 {(last + rng.choice([0, 1, 2, 6])) * 1000} {10 ** 14} *")
+        ops.append(f"log.find s1 {last * 1000} {10 ** 14} *")
     lines = ["", "abc", "1|2|3|4|5|6|7|8", f"{ts}|t|g|1|2|3|4|5", f"x{ts}|t|g|1|2|3|4|5", f"{ts}|t|g|x|2|3|4|5", f"{ts}|t|g|1|x|3|4|5",
              f"{ts}|t|g|1|2|x|4|5", f"{ts}|t|g|1|2|3|x|5", f"{ts}|t|g|1|2|3|4|x", f"{ts}|t|g|1|2|3|4|5|x", f"{ts}|t|g|1|2|3|4|5|6|4294967296",
              f"{ts}|t|g|1|2|3|4|5|6|7|2147483648", f"{ts}|t|g|1|2|3|4|5|6|7|-2147483649", f"{ts}|t|g|1|2|3|4|5|6|7|+5", f"{ts}|t|g|1|2|3|4|5|6|7|-0",
